@@ -115,6 +115,43 @@ def unbalanced(toks, br):
 BR = {"open": {}, "close": {}, "name": {}}
 
 
+def arraylit_sources():
+    """array / object literals in positional, keyed, mixed, nested and JSON-like form, and for every element position the
+    three defective variants: value missing, key missing, both missing (only the `=>` / `:` left)"""
+    E = lambda i: ["$v%d" % (i % 4), str(10 * i + 1), "'c'", "f ( %d )" % i][i % 4]
+    K = lambda i: ['"k%d"' % i, str(i), "$v%d" % (i % 4)][i % 3]
+    shapes = []
+    shapes.append(("positional", [(None, E(i)) for i in range(4)], "=>"))
+    shapes.append(("keyed", [(K(i), E(i)) for i in range(4)], "=>"))
+    shapes.append(("mixed", [(None, E(0)), (None, E(1)), (K(2), E(2)), (K(3), E(3))], "=>"))
+    shapes.append(("mixed-late", [(None, E(0)), (K(1), E(1)), (None, E(2)), (K(3), E(3))], "=>"))
+    shapes.append(("single-keyed", [(K(0), E(0))], "=>"))
+    shapes.append(("json", [("a", E(0)), ("b", E(1)), ("c", E(2))], ":"))
+    out = []
+
+    def render(elems, sep, op="[", cl="]"):
+        parts = []
+        for k, v, has_sep in elems:
+            parts.append(" ".join(x for x in (k, sep if has_sep else None, v) if x))
+        return op + " " + " , ".join(parts) + " " + cl
+
+    for name, elems, sep in shapes:
+        full = [(k, v, k is not None) for k, v in elems]
+        variants = [("ok", full)]
+        for i, (k, v, hs) in enumerate(full):
+            variants.append(("novalue@%d" % i, full[:i] + [(k, None, hs or True)] + full[i + 1:]))       # k =>    /   =>
+            if k is not None:
+                variants.append(("nokey@%d" % i, full[:i] + [(None, v, True)] + full[i + 1:]))           # => v
+            variants.append(("neither@%d" % i, full[:i] + [(None, None, True)] + full[i + 1:]))          # =>
+            variants.append(("empty@%d" % i, full[:i] + [(None, None, False)] + full[i + 1:]))           # , ,
+        for vname, el in variants:
+            for wrap in ("$v0 = %s ;", "$v0 = [ 1 , %s , 2 ] ;", "echo count ( %s ) ;", "$v0 = [ \"n\" => %s ] ;"):
+                out.append(("%s:%s" % (name, vname), wrap % render(el, sep)))
+            if sep == ":":
+                out.append(("%s-brace:%s" % (name, vname), "$v0 = %s ;" % render(el, sep, "{", "}")))
+    return out
+
+
 def token_mutants(rng, data, toks, nprefix, ndel, ndup):
     """prefixes at token boundaries, single-token deletions and duplications (spans from the real lexer)"""
     res = []
@@ -216,16 +253,42 @@ def main(ck):
                     cases.append({"hex": src.hex(), "mode": m, "origin": "tail", "mut": "-", "run": False})
         # nesting depth: openers repeated n times (with and without their closers), both modes.  The parser must answer
         # with a program or a diagnostic — a worker death (fatal error: stack overflow) or a timeout is a violation.
-        openers = [(b"(", b")"), (b"[", b"]"), (b"!", b""), (b"-", b""), (b"~", b""), (b"(int)", b""), (b"{", b"}"), (b"f(", b")"),
-                   (b"$a?", b":1"), (b"if(1)", b""), (b"[1,", b"]"), (b"$a=", b""), (b"@", b""), (b"new f(", b")"), (b"fn() => ", b"")]
-        for op, cl in openers:
-            for n in ((1500, 20000) if quick else (1500, 100000, 1000000)):
+        # every construct that can contain itself (or be chained by right recursion), alone and alternating in pairs
+        openers = [(b"(", b")"), (b"[", b"]"), (b"!", b""), (b"-", b""), (b"~", b""), (b"(int)", b""), (b"(string)", b""), (b"{", b"}"),
+                   (b"f(", b")"), (b"$a?", b":1"), (b"$a?1:", b""), (b"$a?:", b""), (b"$a??", b""), (b"2**", b""), (b"if(1)", b""),
+                   (b"[1,", b"]"), (b"$a=", b""), (b"@", b""), (b"\\", b""), (b"&", b""), (b"...", b""), (b"new f(", b")"), (b"new ", b""),
+                   (b"clone ", b""), (b"print ", b""), (b"echo ", b""), (b"fn() => ", b""), (b"static fn() => ", b""), (b"function(){return ", b";}"),
+                   (b"array(", b")"), (b"array(1=>", b")"), (b"[1=>", b"]"), (b"match(1){1=>", b"}"), (b"$a[", b"]"), (b"$a->b(", b")"), (b"A::b(", b")"),
+                   (b"\"{$a[", b"]}\""), (b"\"${", b"}\""), (b"<<<A\n{$a[", b"]}\nA\n"), (b"yield ", b""), (b"throw ", b""), (b"include ", b""),
+                   (b"++", b""), (b"try{", b"}"), (b"do{", b"}while(0);"), (b"while(1)", b""), (b"for(;;)", b""), (b"foreach($a as $b)", b""),
+                   (b"switch(1){case 1:", b"}"), (b"if(1){}else ", b""), (b"class A{function f(){", b"}}"), (b"isset(", b")"), (b"list(", b")"),
+                   (b"#[A(", b")]")]
+        # bytes: the deepest inputs are as deep as a source of this size allows (at most 10^6 levels)
+        BIG = 4000000 if quick else 8000000
+        # nested heredocs inside interpolation are re-lexed once per level (known finding time:heredoc-nest, measured by
+        # the time-ratio test below): deeper than this they only measure that quadratic cost
+        MAXN = {b"<<<A\n{$a[": 2000}
+
+        def depth_cases(op, cl, n, closed, modes, tag):
+            body = b"$x = " + op * n + b"1" + (cl * n if closed else b"") + b";"
+            for m in modes:
+                src = (b"<?php " if m == "template" else b"") + body
+                cases.append({"hex": src.hex(), "mode": m, "origin": "depth", "mut": tag + ("" if closed else ":open"), "run": False})
+        for k, (op, cl) in enumerate(openers):
+            big = min(1000000, BIG // (len(op) + len(cl)), MAXN.get(op, 10 ** 9))
+            for n in ((1500, big) if quick else (1500, 100000, big)):
                 for closed in (True, False):
-                    body = b"$x = " + op * n + b"1" + (cl * n if closed else b"") + b";"
-                    for m in ("plain", "template"):
-                        src = (b"<?php " if m == "template" else b"") + body
-                        cases.append({"hex": src.hex(), "mode": m, "origin": "depth", "mut": op.decode() + ("" if closed else ":open"),
-                                      "run": False})
+                    if quick and n == big and not closed:
+                        continue                                  # quick tier: the deepest inputs only in their closed form
+                    depth_cases(op, cl, n, closed, ("plain",) if (quick and n == big) else ("plain", "template"), op.decode("latin-1"))
+            # alternating with the next construct of the list (thorough: with every other one)
+            if quick:
+                partners = [openers[(k + 1 + ck.seed) % len(openers)]] if (k + ck.seed) % 3 == 0 else []
+            else:
+                partners = [o for o in openers if o[0] != op]
+            for op2, cl2 in partners:
+                big2 = min(500000, BIG // (len(op) + len(cl) + len(op2) + len(cl2)), MAXN.get(op, 10 ** 9), MAXN.get(op2, 10 ** 9))
+                depth_cases(op + op2, cl2 + cl, big2 if quick else min(big2, 200000), True, ("plain",), op.decode("latin-1") + "+" + op2.decode("latin-1"))
         # (i) corpus files: first pass to get the token spans
         files = sorted(glob.glob(os.path.join(vcheck.REPO, "tests", "**", "*.php"), recursive=True) +
                        glob.glob(os.path.join(vcheck.REPO, "tests", "**", "*.zy"), recursive=True) +
@@ -246,6 +309,9 @@ def main(ck):
                 bases.append((b"<html>\n<?php\n" + gen_program(rng).encode() + b"?>\n</html>\n", "template", "generated-t", True))
             else:
                 bases.append((gen_program(rng).encode(), "plain", "generated", True))
+        for tag, src in arraylit_sources():
+            cases.append({"hex": ("function f($x) { return $x; } $v1 = 1; $v2 = 2; $v3 = 3; " + src).encode().hex(), "mode": "plain",
+                          "origin": "arraylit", "mut": tag, "run": True})
         first = lexrun.run(binary, [{"hex": d.hex(), "mode": m} for d, m, _, _ in bases])
         for (data, mode, origin, runnable), o in zip(bases, first):
             cases.append({"hex": data.hex(), "mode": mode, "origin": origin, "mut": "none", "run": runnable})
@@ -266,7 +332,15 @@ def main(ck):
                      # sources too long for the lexer tie do not need their token list back (the engine reports the
                      # token count and the bracket-balance verdict itself): keeps the thorough tier's memory bounded
                      "maxtoks": 1 if len(c["hex"]) > 8000 else 0})
-    outs = lexrun.run(binary, reqs, nproc=12)
+    # lexrun gives each worker one contiguous chunk: deal the cases out by size so that the multi-megabyte depth inputs
+    # do not all land on the same worker
+    nproc = 12
+    by_size = sorted(range(len(reqs)), key=lambda i: -len(reqs[i]["hex"]))
+    perm = [i for k in range(nproc) for i in by_size[k::nproc]]
+    pouts = lexrun.run(binary, [reqs[i] for i in perm], nproc=nproc)
+    outs = [None] * len(reqs)
+    for i, o in zip(perm, pouts):
+        outs[i] = o
     # a watchdog that fired is confirmed by running the case again, alone, in a fresh worker: a real hang repeats, a
     # starved worker on a loaded machine does not (the thorough tier runs 12 workers for twenty minutes next to other checks)
     retried = 0
@@ -348,10 +422,11 @@ def main(ck):
             "if-chain": lambda n: b"if ($a) { $b = 1; } " * n,
             "alt-syntax": lambda n: b"<?php " + b"if ($a): $b = 1; endif; " * n,
             "html": lambda n: b"<p>x</p>\n" * n + b"<?php $x = 1;",
+            "heredoc-nest": lambda n: b"$x = " + b"<<<A\n{$a[" * n + b"1" + b"]}\nA\n" * n + b";",
         }
         n0 = 4000 if quick else 20000
         treq, tkey = [], []
-        slow = {"alt-syntax": 4, "interpolation": 4}      # shapes with a large constant: a quarter of the length suffices
+        slow = {"alt-syntax": 4, "interpolation": 4, "heredoc-nest": 2}      # shapes with a large constant: a quarter of the length suffices
         for name, f in sorted(shapes.items()):
             for n in (n0, 4 * n0):
                 src = f(n // slow.get(name, 1))
@@ -441,6 +516,9 @@ def main(ck):
                 else:
                     t2.insert(i, rng.choice(INS))
                 ssrcs.append(" ".join(t2))
+        # array / object literals with a missing key or value at every element position (positional, keyed, mixed, nested)
+        alit = arraylit_sources()
+        ssrcs += ["function f ( $x ) { return $x ; } $v1 = 1 ; $v2 = 2 ; $v3 = 3 ; " + src for _, src in alit]
         souts = stmttie.run_engine(stmt_bin, ssrcs)
         sterms, sidx = [], []
         for i, o in enumerate(souts):
